@@ -43,19 +43,7 @@ def run(ctx):
     ctx.rule('C13.R1', 'every return of beartype_type returns its (never re-assigned) parameter cls; '
              '_beartype_object_nonfatal returns obj after a failed decoration')
     p = params_of(bt)[0]
-    cm = repo.mod(CORE)
-    nf = cm.defs.get('_beartype_object_nonfatal')
-    ctx.require(nf is not None, 'anchor vanished: _beartype_object_nonfatal')
-    last = nf.body[-1]
-    ctx.ob('C13.R1', '_beartype_object_nonfatal:returns-obj-on-failure', cm.where(last),
-           'after the handler the undecorated object is returned', isinstance(last, ast.Return) and dotted(last.value) == 'obj',
-           norm(last)[:80])
-    tries = [t for t in walk_shallow(nf) if isinstance(t, ast.Try)]
-    ok = len(tries) == 1 and any(dotted(h.type) == 'Exception' for h in tries[0].handlers) \
-        and not any(isinstance(x, ast.Raise) for h in tries[0].handlers for x in ast.walk(h))
-    ctx.ob('C13.R1', '_beartype_object_nonfatal:handler-warns-not-raises', cm.where(nf),
-           'the handler issues a warning and does not re-raise', ok and any(
-               isinstance(c, ast.Call) and dotted(c.func) == 'issue_warning' for c in ast.walk(tries[0])) if tries else False, '')
+    _nonfatal_route(ctx)
 
     # ---- R2 ----------------------------------------------------------------------
     ctx.rule('C13.R2', 'the member loop iterates cls.__dict__ (own attributes, not dir() / the MRO); a nested class is '
@@ -782,5 +770,71 @@ def _func_route(ctx):
         F.patch_global(BEARFUNC, 'get_hintable_pep649749_annotations_or_none', old_ann)
         F.stubs.clear()
         F.stubs.update(saved_stubs)
+        F.ext_stubs.clear()
+        F.ext_stubs.update(saved_ext)
+
+
+def _nonfatal_route(ctx):
+    """The non-fatal decoration route, interpreted (handlers modelled): success returns the decorated object, failure
+    issues one warning of the configured class and returns the object as it was."""
+    from sa.fold import AObj, FuncVal, Inst, _Abort, _Raise, _call_function
+    from sa.gen import AConf
+    from . import _gen
+    repo = ctx.repo
+    F = _gen.engines(ctx)[0].f
+    cm = repo.mod(CORE)
+    # by role: the function of decorcore that issues the decoration warning
+    cands = [n for n, v in F.module_env(CORE).items() if isinstance(v, FuncVal) and v.module == CORE and any(
+        isinstance(c, ast.Call) and dotted(c.func) == 'issue_warning' for c in ast.walk(v.node))]
+    ctx.require(len(cands) == 1, f'anchor vanished: the non-fatal decoration route of decorcore (candidates {cands})')
+    fn = F.const(CORE, cands[0])
+    fatal = [n for n, v in F.module_env(CORE).items() if isinstance(v, FuncVal) and v.module == CORE and n != cands[0]
+             and any(isinstance(c, ast.Call) and dotted(c.func) == n for c in ast.walk(fn.node))]
+    ctx.require(len(fatal) == 1, f'the non-fatal route does not delegate to exactly one route of decorcore ({fatal})')
+    saved, saved_ext = dict(F.stubs), dict(F.ext_stubs)
+    warned = []
+    outcome = {}
+
+    def do(env, a, k):
+        if outcome['fails']:
+            raise _Raise('BeartypeDecorHintException', 'the fatal route')
+        return Inst('Checked', (repr(a[0] if a else k.get('obj')),))
+    F.stubs[f'{CORE}.{fatal[0]}'] = do
+    # (issue_warning is defined under a Python-version test: patched where it is used)
+    from sa.fold import _PyCallable
+    old_iw = F.patch_global(CORE, 'issue_warning', _PyCallable(lambda *a, **k: warned.append(k.get('warning_cls', a[0] if a else None))))
+    F.stubs['beartype._util.cls.utilclstest.is_type_subclass'] = lambda e, a, k: True
+    F.stubs['beartype._util.text.utiltextprefix.prefix_object'] = lambda e, a, k: 'object '
+    F.stubs['beartype._util.text.utiltextmunge.uppercase_str_char_first'] = lambda e, a, k: (a[0] if a else k.get('text', ''))
+    F.ext_stubs['traceback.format_exc'] = lambda e, a, k: 'Traceback …'
+    obj = Inst('object', ('the decorated object',))
+    conf = AConf(warning_cls_on_decorator_exception='WarningClass', is_color=False)
+    try:
+        F.faithful_try = True
+        for fails in (False, True):
+            outcome['fails'] = fails
+            del warned[:]
+            raised = out = None
+            try:
+                out = _call_function(F, fn, [obj], {'conf': conf}, 1)
+            except _Raise as ex:
+                raised = ex
+            except _Abort as ex:
+                ctx.require(False, f'cannot interpret {fn.qual}: {ex}')
+            if fails:
+                ctx.ob('C13.R1', 'nonfatal-route:returns-obj-on-failure', cm.where(fn.node),
+                       'when decoration fails the object is returned as it was and nothing is raised', raised is None and out is obj,
+                       f'evaluates to {out!r}' if raised is None else f'raises {raised}')
+                ctx.ob('C13.R1', 'nonfatal-route:handler-warns-not-raises', cm.where(fn.node),
+                       'one warning of the configured class is issued', warned == ['WarningClass'], f'warnings issued: {warned}')
+            else:
+                ctx.ob('C13.R1', 'nonfatal-route:returns-decorated-on-success', cm.where(fn.node),
+                       'when decoration succeeds its result is returned and no warning is issued',
+                       raised is None and isinstance(out, Inst) and out.cls == 'Checked' and not warned, f'evaluates to {out!r}; warnings {warned}')
+    finally:
+        F.faithful_try = False
+        F.patch_global(CORE, 'issue_warning', old_iw)
+        F.stubs.clear()
+        F.stubs.update(saved)
         F.ext_stubs.clear()
         F.ext_stubs.update(saved_ext)
